@@ -256,6 +256,93 @@ def fixed_cases():
     return out
 
 
+# ---- fixed cases (the same for every seed): an EARLIER operand that is a literal (list of one / two elements, nested list,
+# indexed literal, map literal) built from a value read through an index, a field or a map key, and a LATER sibling that
+# writes that very slot (by assignment, by compound assignment, by reversing the list): the literal was evaluated when the
+# slot held its old value and keeps it.  Slots hold scalars (int, str): a literal stores the value, there is nothing to alias.
+VIEW_SOURCES = [("element", "xs[0]", "int", 11), ("last-element", "xs[2]", "int", 13), ("field", "box.v", "int", 21), ("map-value", "mm[\"a\"]", "int", 31),
+                ("nested-element", "(ys[1])[0]", "int", 41), ("str-element", "ws[0]", "str", "ab"), ("self-field", "box.peek()", "int", 21)]
+VIEW_WRAPPERS = [("one-element-list", "[%s]", "[T...]", lambda v: [v]), ("two-element-list", "[%s, %s]", "[T...]", lambda v: [v, v]),
+                 ("nested-one-element-list", "[[%s]]", "[[T...]...]", lambda v: [[v]]), ("indexed-one-element-list", "[%s][0]", "T", lambda v: v),
+                 ("list-of-one-element-lists", "[[%s], [%s]]", "[[T...]...]", lambda v: [[v], [v]]), ("one-pair-map", "map[str, T] { \"k\": %s }", "map[str, T]", lambda v: {"k": v}),
+                 ("bare", "%s", "T", lambda v: v)]
+VIEW_CONTEXTS = ["argument", "list-element", "equality", "map-pair", "method-argument", "deep-sibling"]
+VIEW_MUTATORS = ["assign", "compound", "reverse"]
+
+
+def _show(v, depth=0):
+    if isinstance(v, list):
+        return "[" + ", ".join(_show(e, depth + 1) for e in v) + "]"
+    if isinstance(v, dict):
+        return "{" + ", ".join("\"%s\": %s" % (k, _show(e, depth + 1)) for k, e in v.items()) + "}"
+    if isinstance(v, str):
+        return "\"%s\"" % v if depth else v
+    return str(v)
+
+
+def view_literal_cases():
+    """-> [(id, source, expected lines)]"""
+    out = []
+    for sid, sexpr, sty, sval in VIEW_SOURCES:
+        for mut in VIEW_MUTATORS:
+            if mut == "reverse" and sid not in ("element", "last-element", "str-element"):
+                continue
+            if mut == "compound" and sid == "self-field":
+                continue
+            for wid, wfmt, wty, wval in VIEW_WRAPPERS:
+                for cx in VIEW_CONTEXTS:
+                    if cx == "equality" and wid == "one-pair-map":
+                        continue                                              # (`==` is not defined on maps)
+                    T = sty
+                    ty = wty.replace("T", T)
+                    W = wfmt.replace("T", T) % ((sexpr,) * wfmt.count("%s"))
+                    k = 5
+                    tag = "\"zz\"" if T == "str" else "%d" % k            # what the sibling returns (its own contribution)
+                    tagv = "zz" if T == "str" else k
+                    if cx == "equality":
+                        # here the sibling returns the value the slot held BEFORE it wrote it: equal exactly when the left operand kept it
+                        tag, tagv = ("\"%s\"" % sval if T == "str" else "%d" % sval), sval
+                    Wb = wfmt.replace("T", T) % (("bump(%d)" % k,) * 1 + (tag,) * (wfmt.count("%s") - 1))
+                    wbv = {"one-element-list": [tagv], "two-element-list": [tagv, tagv], "nested-one-element-list": [[tagv]], "indexed-one-element-list": tagv,
+                           "list-of-one-element-lists": [[tagv], [tagv]], "one-pair-map": {"k": tagv}, "bare": tagv}[wid]
+                    if mut == "assign":
+                        body = "  xs[0] = 100\n  xs[2] = 300\n  box.v = 1000\n  mm[\"a\"] = 10000\n  ys[1] = [77, 78]\n  ws[0] = \"ZZ\"\n"
+                    elif mut == "compound":
+                        body = "  xs[0] += 100\n  xs[2] *= 3\n  box.v -= 1000\n  mm[\"a\"] += 10000\n  inner = ys[1]\n  inner[0] += 7\n  ws[0] += \"ZZ\"\n"
+                    else:
+                        body = "  xs.reverse()\n  ws.reverse()\n"
+                    pre = ("xs: [int...] = [11, 12, 13]\nys: [[int...]...] = [[40], [41, 42]]\nws: [str...] = [\"ab\", \"cd\", \"ef\"]\n"
+                           "class Box {\n  v: int\n  constructor(self, v: int) {\n    self.v = v\n  }\n  fn peek(self) -> int {\n    return self.v\n  }\n"
+                           "  fn keep(self, l: %s, n: %s) -> %s {\n    return l\n  }\n}\nbox = Box(21)\nmm = map[str, int] { \"a\": 31 }\n"
+                           "bump = fn(n: int) -> %s {\n  print n\n%s  return %s\n}\n"
+                           "keep = fn(l: %s, n: %s) -> %s {\n  return l\n}\n" % (ty, T, ty, T, body, tag, ty, T, ty))
+                    v, e = wval(sval), []
+                    if cx == "argument":
+                        src = pre + "r: %s = keep(%s, bump(%d))\nprint r\n" % (ty, W, k)
+                        e = [str(k), _show(v)]
+                    elif cx == "list-element":
+                        src = pre + "r: [%s...] = [%s, %s]\nprint r\n" % (ty, W, Wb)
+                        e = [str(k), _show([v, wbv])]
+                    elif cx == "equality":
+                        src = pre + "print %s == %s\n" % (W, Wb)
+                        e = [str(k), "true"]
+                    elif cx == "map-pair":
+                        src = pre + "g = map[str, %s] { \"p\": %s, \"q\": %s }\nr = g[\"p\"]\nprint r\nr2 = g[\"q\"]\nprint r2\n" % (ty, W, Wb)
+                        e = [str(k), _show(v), _show(wbv)]
+                    elif cx == "method-argument":
+                        src = pre + "r: %s = box.keep(%s, bump(%d))\nprint r\n" % (ty, W, k)
+                        e = [str(k), _show(v)]
+                    else:
+                        assert cx == "deep-sibling"
+                        if T == "str":
+                            src = pre + "r: %s = keep(%s, \"<\" + (log(1) + bump(%d)))\nprint r\n" % (ty, W, k)
+                        else:
+                            src = pre + "r: %s = keep(%s, 0 + (log(1) * bump(%d)))\nprint r\n" % (ty, W, k)
+                        e = ["1", str(k), _show(v)]
+                    out.append(("%s/%s/%s/%s" % (sid, mut, wid, cx), src, e))
+    return out
+
+
 # ---- the compound assignments `+= -= *= /= %=` are binary operators of the grammar (members of `bin_op`): their LEFT operand
 # (the variable's value; the index / key / call arguments of the path that names the slot, then the slot's value) comes
 # before the right operand, and is not disturbed by it.  Python oracle; next to the demanded output the oracle computes the
@@ -388,6 +475,19 @@ def run(ctx):
         if got != exp:
             ctx.report("order:extended", "evaluation order / once-only violated in: %s  expected %r got %r" % (src.strip(), exp, got),
                        {"program": pre + src, "expected": exp, "observed": got, "rc": rc})
+    views = view_literal_cases()
+    n_view = 0
+    for (cid, _, _), (src, exp, rc, out, err) in zip(views, programs.pmap(one, [(c[1], c[2]) for c in views])):
+        if rc != 0 and "Did not compile" in (out + err):
+            ctx.report("generator-rejected", "a fixed literal-of-a-view case (%s) is rejected by the compiler: %s" % (cid, (out + err)[-300:]),
+                       {"case": cid, "program": pre + src}, found_input=False)
+            continue
+        n_view += 1
+        got = out.split("\n")[:-1]
+        if rc != 0 or got != exp:
+            ctx.report("order:literal-of-view-disturbed", "an operand already evaluated is changed by a later sibling (%s): expected %r got %r (exit %d)" % (cid, exp, got, rc),
+                       {"case": cid, "program": pre + src, "expected": exp, "observed": got, "rc": rc, "stderr": err[-300:], "how": "mscript run main.ms -q"})
+    ctx.cov["literal_of_view_cases"] = n_view
     ops = opassign_cases(ctx.rng, 60 if ctx.quick() else 600)
     n_opa = 0
     for (kind, form, src0, exp, dev), (src, _, rc, out, err) in zip(ops, programs.pmap(one, [(c[2], c[3]) for c in ops])):
@@ -408,11 +508,13 @@ def run(ctx):
                        % (form, src.strip().split("\n")[-2], exp, got, rc, err[-200:].replace("\n", " ")),
                        {"program": pre + src, "expected": exp, "observed": got, "rc": rc, "recorded_deviation": dev})
     ctx.cov["opassign_cases"] = n_opa
-    ctx.cov["evaluations"] = st["programs"] * per + n_ext + n_opa
+    ctx.cov["evaluations"] = st["programs"] * per + n_ext + n_opa + n_view
     ctx.cov["distinct_nontrivial"] = len(set(str(s) for s in shapes if s not in ('I', 'B0', 'B1')))
     ctx.cov["rule"] = ("expression trees whose leaves are calls to logging functions, %d per program; all shapes of depth <= %s over "
                        "{+,*,-, 2-arg call, 4-arg call, 0-arg call, recursion, &&, ||, !, <, ==}; non-trivial = distinct non-leaf shape; "
-                       "extended stream (list/map literals, indexing, method calls; compound assignments to variables, elements, map values, fields) against an independent Python oracle" % (per, "1 exhaustively, 2-3 sampled" if ctx.quick() else "2 exhaustively, 3 sampled"))
+                       "extended stream (list/map literals, indexing, method calls; compound assignments to variables, elements, map values, fields) against an independent Python oracle; "
+                       "fixed family view_literal_cases: a literal (one / two elements, nested, indexed, one-pair map) built from an element / field / map value as the EARLIER operand, "
+                       "the later sibling writes that slot (assignment, compound assignment, reverse) in argument / list element / == / map pair / method argument / nested position" % (per, "1 exhaustively, 2-3 sampled" if ctx.quick() else "2 exhaustively, 3 sampled"))
     ctx.cov["exhaustive"] = True
     ctx.cov["statistics"] = st
     ctx.cov["extended_cases"] = n_ext
